@@ -72,3 +72,55 @@ print('Definition cond_t_or_f : list pstr := %s.\n' % coq_list([coq_str(x) for x
 print('Definition cond_str_format : pstr := %s.\n' % coq_str(str_fmt))
 print('Definition cond_aliases : list (pstr * (pstr * pstr)) := %s.\n'
       % coq_list(['(%s, (%s, %s))' % (coq_str(n), coq_str(o), coq_str(a)) for n, o, a in aliases]))
+
+# ---- get_skip_if_condition(skip_if, _locals, operand_2): the guards (early returns) and what the rest of the
+# function does with `_locals`.  Statement forms are encoded as (kind, [texts]); anything that is not one of
+# the known forms is emitted as ('other', [text]) and has no meaning in SkipLocals.binder_of_src, so the proof
+# obligation C11_binder_source_tie fails.
+gfn = [n for n in tree.body if isinstance(n, ast.FunctionDef) and n.name == 'get_skip_if_condition']
+expect(len(gfn) == 1, 'one function get_skip_if_condition in models.py')
+gfn = gfn[0]
+expect([a.arg for a in gfn.args.args] == ['skip_if', '_locals', 'operand_2'] and not gfn.args.kwonlyargs
+       and gfn.args.vararg is None and gfn.args.kwarg is None, 'get_skip_if_condition(skip_if, _locals, operand_2)')
+gbody = [s for s in gfn.body
+         if not (isinstance(s, ast.Expr) and isinstance(s.value, ast.Constant) and isinstance(s.value.value, str))
+         and not isinstance(s, (ast.Import, ast.ImportFrom))]
+guards, galiases = [], []
+k = 0
+while k < len(gbody):
+    s = gbody[k]
+    if (isinstance(s, ast.If) and not s.orelse and len(s.body) == 1 and isinstance(s.body[0], ast.Return)
+            and s.body[0].value is not None):
+        guards.append((ast.unparse(s.test), ast.unparse(s.body[0].value)))
+    elif (isinstance(s, ast.Assign) and len(s.targets) == 1 and isinstance(s.targets[0], ast.Name)
+          and isinstance(s.value, ast.Attribute)):
+        expect(s.targets[0].id not in ('skip_if', '_locals', 'operand_2'), 'alias does not rebind a parameter')
+        expect(all(a != s.targets[0].id for a, _ in galiases), 'alias assigned once')
+        galiases.append((s.targets[0].id, ast.unparse(s.value)))
+    else:
+        break
+    k += 1
+tail = []
+for s in gbody[k:]:
+    for sub in ast.walk(s):      # a later re-assignment of an alias would invalidate its resolution
+        if isinstance(sub, ast.Name) and isinstance(sub.ctx, ast.Store):
+            expect(all(a != sub.id for a, _ in galiases), 'alias %s not re-assigned in the tail' % sub.id)
+    if (isinstance(s, ast.Assign) and len(s.targets) == 1 and isinstance(s.targets[0], ast.Subscript)
+            and isinstance(s.targets[0].value, ast.Name)):
+        tail.append(('setitem', [s.targets[0].value.id, ast.unparse(s.targets[0].slice), ast.unparse(s.value)]))
+    elif (isinstance(s, ast.Return) and isinstance(s.value, ast.JoinedStr) and len(s.value.values) == 3
+          and isinstance(s.value.values[0], ast.FormattedValue) and s.value.values[0].conversion == -1
+          and s.value.values[0].format_spec is None
+          and isinstance(s.value.values[1], ast.Constant) and s.value.values[1].value == ' '
+          and isinstance(s.value.values[2], ast.FormattedValue) and s.value.values[2].conversion == -1
+          and s.value.values[2].format_spec is None):
+        tail.append(('return_op_name', [ast.unparse(s.value.values[0].value), ast.unparse(s.value.values[2].value)]))
+    else:
+        tail.append(('other', [ast.unparse(s)]))
+
+print('Definition cond_gsc_guards : list (pstr * pstr) := %s.\n'
+      % coq_list(['(%s, %s)' % (coq_str(t), coq_str(r)) for t, r in guards]))
+print('Definition cond_gsc_aliases : list (pstr * pstr) := %s.\n'
+      % coq_list(['(%s, %s)' % (coq_str(a), coq_str(b)) for a, b in galiases]))
+print('Definition cond_gsc_tail : list (pstr * list pstr) := %s.\n'
+      % coq_list(['(%s, %s)' % (coq_str(kd), coq_list([coq_str(x) for x in xs])) for kd, xs in tail]))
